@@ -221,4 +221,250 @@ theorem decBigInt (l : List UInt8) (hl : l.length < 2^63) :
   · simp only [List.length_cons, Marshal.decBigInt]
     rfl
 
+
+/-! ### Loops: `bytesToInt64` / `bytesToUint64` (range loops, translated since go2lean handles counted loops)
+
+  The generated helper `bytes…_loop1` is the Go loop by recursion on a fuel argument (= `len(data)`); `orBE` is what it
+  accumulates; `orBE_val` is the big-endian value modulo 2^64 (the shifted bytes occupy disjoint bit ranges, bytes
+  beyond the lowest eight are shifted out exactly as in Go). -/
+
+/-- what the loop of `bytesToInt64` / `bytesToUint64` accumulates over the rest of the slice -/
+def orBE : List (BitVec 8) → BitVec 64
+  | [] => 0#64
+  | b :: bs => (b.setWidth 64 <<< (8 * bs.length)) ||| orBE bs
+
+theorem slt_small (i n : Nat) (h : i < n) (hn : n < 2^62) :
+    BitVec.slt (BitVec.ofNat 64 i) (BitVec.ofNat 64 n) = true := by
+  simp only [BitVec.slt, BitVec.toInt_eq_toNat_cond, BitVec.toNat_ofNat, decide_eq_true_eq]
+  have a : i % 2^64 = i := Nat.mod_eq_of_lt (by omega)
+  have b : n % 2^64 = n := Nat.mod_eq_of_lt (by omega)
+  rw [a, b]
+  have : 2 * i < 2^64 := by omega
+  have : 2 * n < 2^64 := by omega
+  simp [*]
+
+theorem shiftAmount (len i k : Nat) (h : len = i + k + 1) (hl : len < 2^60) :
+    (0x8#64 * ((BitVec.ofNat 64 len - BitVec.ofNat 64 i) - 0x1#64)).toNat = 8 * k := by
+  subst h
+  have e : (BitVec.ofNat 64 (i + k + 1) - BitVec.ofNat 64 i) - 0x1#64 = BitVec.ofNat 64 k := by
+    apply BitVec.eq_of_toNat_eq
+    simp [BitVec.toNat_sub]
+    omega
+  rw [e]
+  simp [BitVec.toNat_mul]
+  omega
+
+theorem loopU (pre rest : List (BitVec 8)) (hl : (pre ++ rest).length < 2^60) (ret : BitVec 64) :
+    Gen.Marshal.bytesToUint64_loop1 (pre ++ rest) rest.length (BitVec.ofNat 64 pre.length) ret = ret ||| orBE rest := by
+  induction rest generalizing pre ret with
+  | nil => simp [Gen.Marshal.bytesToUint64_loop1, orBE]
+  | cons b bs ih =>
+    rw [List.length_cons, Gen.Marshal.bytesToUint64_loop1]
+    have hlen : (pre ++ b :: bs).length = pre.length + bs.length + 1 := by simp; omega
+    rw [slt_small pre.length (pre ++ b :: bs).length (by omega) (by omega)]
+    simp only [if_true]
+    rw [shiftAmount _ _ bs.length hlen hl]
+    have hi : (BitVec.ofNat 64 pre.length).toNat = pre.length := by simp; omega
+    have hget : (pre ++ b :: bs).getD (BitVec.ofNat 64 pre.length).toNat 0#8 = b := by
+      rw [hi]; simp [List.getD_eq_getElem?_getD]
+    rw [hget]
+    have hadd : BitVec.ofNat 64 pre.length + 0x1#64 = BitVec.ofNat 64 (pre ++ [b]).length := by
+      apply BitVec.eq_of_toNat_eq; simp
+    rw [hadd]
+    have hpre : pre ++ b :: bs = (pre ++ [b]) ++ bs := by simp
+    rw [hpre, ih (pre ++ [b]) (by rw [← hpre]; exact hl)]
+    simp [orBE, BitVec.or_assoc]
+
+
+theorem beNat_foldl (bs : List UInt8) (a : Nat) :
+    bs.foldl (fun a x => a * 256 + x.toNat) a = a * 256 ^ bs.length + ValueSpec.beNat bs := by
+  induction bs generalizing a with
+  | nil => simp [ValueSpec.beNat]
+  | cons b bs ih =>
+    simp only [List.foldl_cons, List.length_cons, ValueSpec.beNat]
+    rw [ih, ih (0 * 256 + b.toNat)]
+    rw [Nat.pow_succ]
+    simp [Nat.add_mul, Nat.mul_assoc, Nat.add_assoc, Nat.mul_comm 256]
+
+theorem beNat_cons (b : UInt8) (bs : List UInt8) :
+    ValueSpec.beNat (b :: bs) = b.toNat * 256 ^ bs.length + ValueSpec.beNat bs := by
+  have := beNat_foldl bs (0 * 256 + b.toNat)
+  simpa [ValueSpec.beNat] using this
+
+theorem beNat_lt (bs : List UInt8) : ValueSpec.beNat bs < 256 ^ bs.length := by
+  induction bs with
+  | nil => simp [ValueSpec.beNat]
+  | cons b bs ih =>
+    rw [beNat_cons, List.length_cons, Nat.pow_succ]
+    have : b.toNat < 256 := b.toNat_lt
+    calc b.toNat * 256 ^ bs.length + ValueSpec.beNat bs
+        < b.toNat * 256 ^ bs.length + 256 ^ bs.length := by omega
+      _ = (b.toNat + 1) * 256 ^ bs.length := by rw [Nat.add_mul]; simp
+      _ ≤ 256 * 256 ^ bs.length := Nat.mul_le_mul_right _ (by omega)
+      _ = 256 ^ bs.length * 256 := Nat.mul_comm _ _
+
+theorem pow256 (n : Nat) : 256 ^ n = 2 ^ (8 * n) := by
+  rw [show (256:Nat) = 2^8 from rfl, ← Nat.pow_mul]
+
+theorem or_step (b X n : Nat) (hX : X < 2 ^ (8 * n)) :
+    ((b <<< (8 * n)) % 2^64) ||| (X % 2^64) = (b * 2 ^ (8 * n) + X) % 2^64 := by
+  by_cases hk : 8 * n < 64
+  · have hX64 : X % 2^64 = X := Nat.mod_eq_of_lt (Nat.lt_of_lt_of_le hX (Nat.pow_le_pow_right (by decide) (by omega)))
+    rw [hX64, Nat.shiftLeft_eq]
+    have hsplit : (2:Nat)^64 = 2 ^ (64 - 8 * n) * 2 ^ (8 * n) := by rw [← Nat.pow_add]; congr 1; omega
+    have hm : b * 2 ^ (8 * n) % 2^64 = (b % 2 ^ (64 - 8 * n)) * 2 ^ (8 * n) := by
+      rw [hsplit, Nat.mul_mod_mul_right]
+    rw [hm, ← Nat.shiftLeft_eq, ← Nat.shiftLeft_add_eq_or_of_lt hX, Nat.shiftLeft_eq]
+    have hlt : (b % 2 ^ (64 - 8 * n)) * 2 ^ (8 * n) + X < 2^64 := by
+      have h1 : b % 2 ^ (64 - 8 * n) + 1 ≤ 2 ^ (64 - 8 * n) := Nat.mod_lt _ (Nat.two_pow_pos _)
+      calc (b % 2 ^ (64 - 8 * n)) * 2 ^ (8 * n) + X
+          < (b % 2 ^ (64 - 8 * n)) * 2 ^ (8 * n) + 2 ^ (8 * n) := by omega
+        _ = (b % 2 ^ (64 - 8 * n) + 1) * 2 ^ (8 * n) := by rw [Nat.add_mul]; simp
+        _ ≤ 2 ^ (64 - 8 * n) * 2 ^ (8 * n) := Nat.mul_le_mul_right _ h1
+        _ = 2^64 := hsplit.symm
+    rw [Nat.add_mod, hm, hX64]
+    rw [Nat.mod_eq_of_lt hlt]
+  · have hd : (2:Nat)^64 ∣ b * 2 ^ (8 * n) := by
+      obtain ⟨j, hj⟩ : ∃ j, 8 * n = 64 + j := ⟨8 * n - 64, by omega⟩
+      rw [hj, Nat.pow_add]; exact ⟨b * 2^j, by rw [Nat.mul_comm (2^64) (2^j), ← Nat.mul_assoc, Nat.mul_comm]⟩
+    rw [Nat.shiftLeft_eq, Nat.mod_eq_zero_of_dvd hd, Nat.zero_or, Nat.add_mod, Nat.mod_eq_zero_of_dvd hd, Nat.zero_add, Nat.mod_mod]
+
+theorem orBE_val (bs : List UInt8) : (orBE (bs.map (·.toBitVec))).toNat = ValueSpec.beNat bs % 2^64 := by
+  induction bs with
+  | nil => simp [orBE, ValueSpec.beNat]
+  | cons b bs ih =>
+    simp only [List.map_cons, orBE, BitVec.toNat_or, BitVec.toNat_shiftLeft, List.length_map, ih]
+    have hb : (BitVec.setWidth 64 b.toBitVec).toNat = b.toNat := by
+      have := b.toNat_lt; simp
+    rw [hb, beNat_cons, pow256]
+    have := or_step b.toNat (ValueSpec.beNat bs) bs.length (by rw [← pow256]; exact beNat_lt bs)
+    exact this
+
+/-- `bytesToUint64` for every byte slice (below 2^60 bytes): the big-endian value modulo 2^64 -/
+theorem bytesToUint64 (l : List UInt8) (hl : l.length < 2^60) :
+    ((Gen.Marshal.bytesToUint64 (l.map (·.toBitVec))).toNat : Int) = Marshal.bytesToUint64 l := by
+  unfold Gen.Marshal.bytesToUint64 Marshal.bytesToUint64 toU
+  have hf : ((BitVec.ofNat 64 (l.map (·.toBitVec)).length) - 0x0#64).toNat = (l.map (·.toBitVec)).length := by
+    simp; omega
+  simp only [hf]
+  have := loopU [] (l.map (·.toBitVec)) (by simpa using hl) 0x0#64
+  simp only [List.nil_append, List.length_nil] at this
+  rw [show (0x0#64 : BitVec 64) = BitVec.ofNat 64 0 from rfl, this]
+  simp only [BitVec.zero_or, orBE_val]
+  norm_cast
+
+
+theorem loopS (pre rest : List (BitVec 8)) (hl : (pre ++ rest).length < 2^60) (ret : BitVec 64) :
+    Gen.Marshal.bytesToInt64_loop1 (pre ++ rest) rest.length (BitVec.ofNat 64 pre.length) ret = ret ||| orBE rest := by
+  induction rest generalizing pre ret with
+  | nil => simp [Gen.Marshal.bytesToInt64_loop1, orBE]
+  | cons b bs ih =>
+    rw [List.length_cons, Gen.Marshal.bytesToInt64_loop1]
+    have hlen : (pre ++ b :: bs).length = pre.length + bs.length + 1 := by simp; omega
+    rw [slt_small pre.length (pre ++ b :: bs).length (by omega) (by omega)]
+    simp only [if_true]
+    rw [shiftAmount _ _ bs.length hlen hl]
+    have hi : (BitVec.ofNat 64 pre.length).toNat = pre.length := by simp; omega
+    have hget : (pre ++ b :: bs).getD (BitVec.ofNat 64 pre.length).toNat 0#8 = b := by
+      rw [hi]; simp [List.getD_eq_getElem?_getD]
+    rw [hget]
+    have hadd : BitVec.ofNat 64 pre.length + 0x1#64 = BitVec.ofNat 64 (pre ++ [b]).length := by
+      apply BitVec.eq_of_toNat_eq; simp
+    rw [hadd]
+    have hpre : pre ++ b :: bs = (pre ++ [b]) ++ bs := by simp
+    rw [hpre, ih (pre ++ [b]) (by rw [← hpre]; exact hl)]
+    simp [orBE, BitVec.or_assoc]
+
+theorem toS_mod (x : Nat) : toS 64 ((x % 2^64 : Nat) : Int) = toS 64 (x : Int) := by
+  unfold toS
+  have : ((x % 2^64 : Nat) : Int) = (x : Int) % (2:Int)^64 := by norm_cast
+  rw [this]
+  omega
+
+/-- `bytesToInt64` for every byte slice (below 2^60 bytes): the big-endian value as a signed 64-bit number -/
+theorem bytesToInt64 (l : List UInt8) (hl : l.length < 2^60) :
+    (Gen.Marshal.bytesToInt64 (l.map (·.toBitVec))).toInt = Marshal.bytesToInt64 l := by
+  rw [toS_of_toNat (by decide)]
+  unfold Gen.Marshal.bytesToInt64 Marshal.bytesToInt64
+  have hf : ((BitVec.ofNat 64 (l.map (·.toBitVec)).length) - 0x0#64).toNat = (l.map (·.toBitVec)).length := by
+    simp; omega
+  simp only [hf]
+  have := loopS [] (l.map (·.toBitVec)) (by simpa using hl) 0x0#64
+  simp only [List.nil_append, List.length_nil] at this
+  rw [show (0x0#64 : BitVec 64) = BitVec.ofNat 64 0 from rfl, this]
+  simp only [BitVec.zero_or, orBE_val]
+  exact toS_mod _
+
+example : (Gen.Marshal.bytesToInt64 [0xff#8, 0xfe#8]).toInt = 65534 := by decide
+example : Gen.Marshal.bytesToUint64 [1#8, 2#8, 3#8, 4#8, 5#8, 6#8, 7#8, 8#8, 9#8] = 0x0203040506070809#64 := by decide
+
+
+
+/-! ### The accumulation loop of `decVint` (duration vints), a statement segment translated as a counted loop -/
+
+/-- one step of the `decVint` loop on the 64-bit accumulator: `ret <<= 8; ret |= uint64(data[i+1] & 0xff)` -/
+def vstep (acc : BitVec 64) (x : BitVec 8) : BitVec 64 := (acc <<< 8) ||| ((x &&& 0xff#8).setWidth 64)
+
+theorem vloop (d : List (BitVec 8)) (s0 n0 : Nat) (hB : s0 + n0 + 1 ≤ d.length) (hd : d.length < 2^60) :
+    ∀ (n s : Nat) (ret : BitVec 64), s + n = s0 + n0 →
+      Gen.Marshal.decVint_decVintLoop_loop1 d (BitVec.ofNat 64 s0) (BitVec.ofNat 64 n0) n (BitVec.ofNat 64 s) ret
+        = ((d.drop (s + 1)).take n).foldl vstep ret := by
+  intro n
+  induction n with
+  | zero => intro s ret _; simp [Gen.Marshal.decVint_decVintLoop_loop1]
+  | succ n ih =>
+    intro s ret hs
+    rw [Gen.Marshal.decVint_decVintLoop_loop1]
+    have hb : BitVec.ofNat 64 s0 + BitVec.ofNat 64 n0 = BitVec.ofNat 64 (s0 + n0) := by
+      apply BitVec.eq_of_toNat_eq; simp
+    rw [hb, slt_small s (s0 + n0) (by omega) (by omega)]
+    simp only [if_true]
+    have hi : (BitVec.ofNat 64 s + 0x1#64).toNat = s + 1 := by simp; omega
+    have hadd : BitVec.ofNat 64 s + 0x1#64 = BitVec.ofNat 64 (s + 1) := by
+      apply BitVec.eq_of_toNat_eq; simp
+    rw [hi, hadd, ih (s + 1) _ (by omega)]
+    have hlt : s + 1 < d.length := by omega
+    have hR : (d.drop (s + 1)).take (n + 1) = d[s+1] :: (d.drop (s + 1 + 1)).take n := by
+      rw [List.drop_eq_getElem_cons hlt]; rfl
+    have hg : d.getD (s + 1) 0#8 = d[s+1] := by
+      rw [List.getD_eq_getElem?_getD, List.getElem?_eq_getElem hlt]; rfl
+    rw [hR, List.foldl_cons, hg]
+    rfl
+
+/-- the loop of `decVint` (`for i := start; i < start+numBytes; i++ { ret <<= 8; ret |= uint64(data[i+1] & 0xff) }`),
+    whenever the bytes are there (`decVint` has checked `len(data) ≥ start+numBytes+1` before): the fold of `vstep`
+    over the `numBytes` bytes after the first -/
+theorem decVintLoop (d : List (BitVec 8)) (s n : Nat) (hB : s + n + 1 ≤ d.length) (hd : d.length < 2^60) (ret : BitVec 64) :
+    Gen.Marshal.decVintLoop d (BitVec.ofNat 64 s) (BitVec.ofNat 64 n) ret = ((d.drop (s + 1)).take n).foldl vstep ret := by
+  unfold Gen.Marshal.decVintLoop
+  have hf : ((BitVec.ofNat 64 s + BitVec.ofNat 64 n) - BitVec.ofNat 64 s).toNat = n := by
+    have : BitVec.ofNat 64 s + BitVec.ofNat 64 n - BitVec.ofNat 64 s = BitVec.ofNat 64 n := by
+      apply BitVec.eq_of_toNat_eq; simp [BitVec.toNat_sub]; omega
+    rw [this]; simp; omega
+  simp only [hf]
+  exact vloop d s n hB hd n s ret rfl
+
+/-- `vstep` on the value level is the model's accumulator step `(acc * 256 + x) % 2^64` -/
+theorem vstep_val (acc : BitVec 64) (x : UInt8) :
+    (vstep acc x.toBitVec).toNat = (acc.toNat * 256 + x.toNat) % 2^64 := by
+  unfold vstep
+  have hx256 := x.toNat_lt
+  have hx : ((x.toBitVec &&& 0xff#8).setWidth 64).toNat = x.toNat := by
+    have := x.toNat_lt
+    simp [BitVec.toNat_and]
+    have h255 : (255:Nat) = 2^8 - 1 := rfl
+    rw [h255, Nat.and_two_pow_sub_one_eq_mod]; omega
+  rw [BitVec.toNat_or, BitVec.toNat_shiftLeft, hx, Nat.shiftLeft_eq]
+  have hsplit : (2:Nat)^64 = 2^56 * 2^8 := by decide
+  have hm : acc.toNat * 2^8 % 2^64 = (acc.toNat % 2^56) * 2^8 := by rw [hsplit, Nat.mul_mod_mul_right]
+  rw [hm, ← Nat.shiftLeft_eq, ← Nat.shiftLeft_add_eq_or_of_lt (by have := x.toNat_lt; omega), Nat.shiftLeft_eq]
+  omega
+
+theorem vfold_val (xs : List UInt8) (acc : BitVec 64) :
+    ((xs.map (·.toBitVec)).foldl vstep acc).toNat = xs.foldl (fun a x => (a * 256 + x.toNat) % 2^64) acc.toNat := by
+  induction xs generalizing acc with
+  | nil => rfl
+  | cons x xs ih => simp only [List.map_cons, List.foldl_cons]; rw [ih, vstep_val]
+
+
 end GenTie.C12
